@@ -1122,7 +1122,25 @@ class Wrapc(util.WrapperMixin):
                     cxx_local_var = intent_blk.cxx_local_var
                     fmt_arg.cxx_var = fmt_arg.CXX_local + fmt_arg.c_var
                 elif self.language == "c":
-                    fmt_arg.cxx_var = fmt_arg.c_var
+                    if arg.is_indirect() and \
+                       arg_typemap.name in self.enum_typemaps:
+                        # The wrapper declares a pointer to an enum as a
+                        # pointer to int.  Cast it to the pointer type of
+                        # the library's prototype.
+                        fmt_arg.cxx_var = fmt_arg.CXX_local + fmt_arg.c_var
+                        fmt_arg.cxx_val = wformat(
+                            "({c_const}{cxx_type} *) {c_var}", fmt_arg)
+                        fmt_arg.cxx_decl = arg.gen_arg_as_cxx(
+                            name=fmt_arg.cxx_var,
+                            params=None,
+                            as_ptr=True,
+                            continuation=True,
+                        )
+                        append_format(
+                            pre_call, "{cxx_decl} =\t {cxx_val};", fmt_arg
+                        )
+                    else:
+                        fmt_arg.cxx_var = fmt_arg.c_var
                 elif arg_typemap.c_to_cxx is None:
                     # Compatible
                     fmt_arg.cxx_var = fmt_arg.c_var
